@@ -7,6 +7,7 @@ A plugin receives *events* (handler invocation, store / memset / memcpy / extern
 root, allocation, free, opaque call, branch edge) and keeps its own finite flags.
 """
 from collections import deque
+from fractions import Fraction as Fr
 from .lin import Lin, entails, fm_unsat
 from .effects import external_effect
 from .ir import return_sites
@@ -445,7 +446,7 @@ class Engine:
                 elif a in s.nonneg:
                     bf.append(Lin.atom(a))
             if pp in ("eq", "ne"):
-                if d in facts.ne or (-d) in facts.ne:
+                if _prim(d) in facts.ne:
                     return pp == "ne"
                 if entails(bf, d - Lin.const(1)) or entails(bf, (-d) - Lin.const(1)):
                     return pp == "ne"
@@ -540,7 +541,7 @@ class Engine:
                 elif entails(bf, -d):
                     new = [(-d) - Lin.const(1)]
                 else:
-                    ne = ne | {d}
+                    ne = ne | {_prim(d)}
             ge = facts.ge | frozenset(new)
             if new and fm_unsat(s.base_facts(Facts(ge, ne, facts.cb))):
                 return None
@@ -1021,6 +1022,11 @@ class Engine:
                         return setv(I(Lin.const(r)))
                     except Exception:
                         pass
+                if op in ("sdiv", "ashr") and i.get("exact") and a is not None and b is not None and b.is_const() and b.c > 0 \
+                        and not (vid in s.loopdef or any(_core(x) in s.loopdef for x in a.t)):
+                    # 'exact' (pointer differences): the IR itself states dividend == divisor * quotient
+                    k = int(b.c) if op == "sdiv" else 2 ** int(b.c)
+                    return setv(I(a.scale(Fr(1, k))))
                 if op == "and" and b is not None and b.is_const() and b.c >= 0:
                     s.nonneg.add(vid)
                 if op in ("urem",):
@@ -1091,13 +1097,23 @@ class Engine:
             # interior pointer of the argument (or NULL for the searchers): keep the root, opaque offset
             a = args[eff["ret_arg"]]
             res = P(a[1], a[2] + Lin.atom("off:" + vid)) if name != "realloc" else None
+        variants = [(res, None)]
+        if res is not None and name in SEARCHERS:
+            # a searcher returns NULL or a pointer at/behind its argument: two outcomes instead of one unconstrained offset
+            variants = [(P("null", Lin.const(0)), None), (res, Lin.atom("off:" + vid))]
         for (pl2, assumptions) in s.plugin.on_call(pl, ev, s, (env, facts, epoch)):
+          for (res, extra) in variants:
             clob = not ((not eff and name.startswith("llvm.")) or name.startswith("llvm.") or name in ("strlen", "strnlen", "memset", "memcpy", "memmove", "free", "wcslen", "wcsnlen", "strerror", "strchr", "strrchr", "strstr", "memchr", "memrchr"))
             if clob:
                 ep0 = s.clobber(fr, i)
                 e, f, ep, p2 = with_result(env, facts.kill(lambda a: a == "errno#%s" % ep0), ep0, pl2, res)
             else:
                 e, f, ep, p2 = with_result(env, facts, epoch, pl2, res)
+            if extra is not None:
+                f = Facts(f.ge | {extra}, f.ne, f.cb)
+            hook = getattr(s.plugin, "on_result", None)
+            if hook is not None and vid is not None:
+                p2 = hook(p2, ev, e[vid])
             if vid is not None and "ret_le" in eff and eff["ret_le"] < len(args):
                 b = s.as_lin(args[eff["ret_le"]])
                 r = e[vid]
@@ -1361,6 +1377,24 @@ def run_adaptive(prog, fn, make_plugin, budgets=(60000, 400000), noinline=(), lo
         except BudgetExceeded as e:
             last = e
     raise last
+
+
+SEARCHERS = ("strchr", "strrchr", "strstr", "strcasestr", "strpbrk", "memchr", "memrchr", "wcschr", "wcsrchr", "wcsstr", "wcspbrk", "wmemchr")
+
+
+def _prim(d):
+    """canonical form of a disequality d != 0: integer coefficients without common factor, leading coefficient positive"""
+    from math import gcd
+    m = 1
+    for c in list(d.t.values()) + [d.c]:
+        m = m * c.denominator // gcd(m, c.denominator)
+    g = 0
+    for c in list(d.t.values()) + [d.c]:
+        g = gcd(g, abs(int(c * m)))
+    r = d.scale(Fr(m, g or 1))
+    if r.t and r.t[min(r.t)] < 0:
+        r = -r
+    return r
 
 
 def _core(a):
